@@ -67,6 +67,28 @@ func genLzFields(r *prng.Rng, depth int) []*lzField {
 	return fs
 }
 
+// lzTag appends the key of a field; now and then NOT minimally encoded (padded with continuation bytes), which every
+// protobuf parser accepts and which makes the key longer than SizeOfTagKey(tag)
+func lzTag(r *prng.Rng, b []byte, num protowire.Number, wt protowire.Type) []byte {
+	if !r.Chance(1, 10) {
+		return protowire.AppendTag(b, num, wt)
+	}
+	k := protowire.AppendTag(nil, num, wt)
+	pad := 1 + r.Intn(2)
+	if len(k)+pad > 10 {
+		pad = 10 - len(k)
+	}
+	if pad <= 0 {
+		return append(b, k...)
+	}
+	k[len(k)-1] |= 0x80
+	for i := 0; i < pad-1; i++ {
+		k = append(k, 0x80)
+	}
+	k = append(k, 0x00)
+	return append(b, k...)
+}
+
 // encodeLz produces one message instance for the field list (values are random per call).
 func encodeLz(r *prng.Rng, fs []*lzField) []byte {
 	type piece struct{ b []byte }
@@ -77,40 +99,40 @@ func encodeLz(r *prng.Rng, fs []*lzField) []byte {
 			var b []byte
 			switch f.kind {
 			case lzVarint:
-				b = protowire.AppendTag(b, num, protowire.VarintType)
+				b = lzTag(r, b, num, protowire.VarintType)
 				b = protowire.AppendVarint(b, lzValue(r))
 			case lzPackedVarint:
 				var body []byte
 				for j := r.Intn(4); j > 0; j-- {
 					body = protowire.AppendVarint(body, lzValue(r))
 				}
-				b = protowire.AppendTag(b, num, protowire.BytesType)
+				b = lzTag(r, b, num, protowire.BytesType)
 				b = protowire.AppendBytes(b, body)
 			case lzFixed32:
-				b = protowire.AppendTag(b, num, protowire.Fixed32Type)
+				b = lzTag(r, b, num, protowire.Fixed32Type)
 				b = protowire.AppendFixed32(b, uint32(r.U64Interesting()))
 			case lzPackedFixed32:
 				var body []byte
 				for j := r.Intn(4); j > 0; j-- {
 					body = protowire.AppendFixed32(body, uint32(r.U64Interesting()))
 				}
-				b = protowire.AppendTag(b, num, protowire.BytesType)
+				b = lzTag(r, b, num, protowire.BytesType)
 				b = protowire.AppendBytes(b, body)
 			case lzFixed64:
-				b = protowire.AppendTag(b, num, protowire.Fixed64Type)
+				b = lzTag(r, b, num, protowire.Fixed64Type)
 				b = protowire.AppendFixed64(b, r.U64Interesting())
 			case lzPackedFixed64:
 				var body []byte
 				for j := r.Intn(4); j > 0; j-- {
 					body = protowire.AppendFixed64(body, r.U64Interesting())
 				}
-				b = protowire.AppendTag(b, num, protowire.BytesType)
+				b = lzTag(r, b, num, protowire.BytesType)
 				b = protowire.AppendBytes(b, body)
 			case lzBytes:
-				b = protowire.AppendTag(b, num, protowire.BytesType)
+				b = lzTag(r, b, num, protowire.BytesType)
 				b = protowire.AppendBytes(b, asciiBytes(r, []int{0, 1, 3, 9}[r.Intn(4)]))
 			case lzMsg:
-				b = protowire.AppendTag(b, num, protowire.BytesType)
+				b = lzTag(r, b, num, protowire.BytesType)
 				var inner []byte
 				if !r.Chance(1, 6) { // sometimes an empty nested message
 					inner = encodeLz(r, f.sub)
